@@ -236,6 +236,20 @@ def raise_site(exc):
     return site
 
 
+def raise_line(exc):
+    """Normalised source text of the innermost line inside the tree under test that raised."""
+    import linecache
+
+    tb = exc.__traceback__
+    text = "?"
+    while tb is not None:
+        fn = tb.tb_frame.f_code.co_filename
+        if os.path.realpath(fn).startswith(REPO + os.sep):
+            text = " ".join(linecache.getline(fn, tb.tb_lineno).split())
+        tb = tb.tb_next
+    return text
+
+
 @contextlib.contextmanager
 def watchdog(seconds):
     """Generous wall-clock watchdog around one case; firing = inconclusive."""
